@@ -83,6 +83,38 @@ func c16Oracle(w *World, ds *DSetup) *Violation {
 				return v
 			}
 		}
+		// ... judged on what the sync could have read before it wrote anything itself: an
+		// object that was neither selected nor carrying the finalizer in every such
+		// version is none of this decorator's business (giving it the finalizer first
+		// does not make it so)
+		if tres != nil {
+			upto := h.ParkStep
+			for _, q := range sy.Reqs {
+				if q.Res == tres && q.NS == mstr(obj, "namespace") && q.Name == mstr(obj, "name") && q.IsWrite() && q.ParkStep < upto {
+					upto = q.ParkStep
+				}
+			}
+			never, versions := true, 0
+			for _, ver := range w.Cache.Versions(h.Inc, tres, mstr(obj, "namespace"), mstr(obj, "name"), sy.StartStep-1, upto) {
+				if ver == nil {
+					never = false // (not there in some view: nothing to go by)
+					continue
+				}
+				versions++
+				vo := mustParse(ver)
+				if mstr(vo, "uid") != mstr(obj, "uid") || cfg.Selects(tres, vo) || hasFinalizer(vo, cfg.FinalizerName()) {
+					never = false
+				}
+			}
+			if never && versions > 0 {
+				s2 := copySig(ds.Sig)
+				s2["view"] = "every-cached-version-before-the-sync-wrote"
+				if v := report(&Violation{Prop: "C16", Class: "unselected-object-decorated", Sig: s2, Step: h.ParkStep,
+					Detail: fmt.Sprintf("%s: in every cached version the sync could have read before its own first write the object satisfied neither the rule's selectors nor carried the finalizer", where)}); v != nil {
+					return v
+				}
+			}
+		}
 		var resp Object
 		if h.Code == 200 && h.Fault == "" {
 			resp, _ = parse(h.RespBody)
@@ -253,7 +285,7 @@ func c16Oracle(w *World, ds *DSetup) *Violation {
 func C16Scenario() *Scenario {
 	return &Scenario{Prop: "C16", Init: func(w *World) {
 		t := w.T
-		ds := NewDecoratorSetup(w, DGenOpts{MaxDecorators: 2, PlainOwner: true})
+		ds := NewDecoratorSetup(w, DGenOpts{MaxDecorators: 2, PlainOwner: true, ResyncOnce: true})
 		b := &EnvBudget{Left: 4 + t.Pick(8, "envbudget")}
 		cfgChanges := t.Pick(3, "cfgchanges")
 		w.EnvOps = func(w *World) []EnvOp {
